@@ -296,6 +296,14 @@ func diffClass(d string) string {
 	if len(parts) > 0 {
 		last = parts[len(parts)-1]
 	}
+	// name the enclosing keyword of the document format rather than a design name
+	for i := len(parts) - 1; i >= 0; i-- {
+		switch parts[i] {
+		case "example", "examples", "default", "enum", "description", "required", "parameters", "responses", "security", "securityDefinitions", "securitySchemes":
+			last = parts[i]
+			i = -1
+		}
+	}
 	kind := "value-differs"
 	switch {
 	case strings.HasPrefix(what, "only in"):
@@ -578,7 +586,7 @@ func checkSwagger2(doc map[string]any) []oaIssue {
 					h, _ := hv.(map[string]any)
 					t, _ := h["type"].(string)
 					if !v2ItemTypes[t] {
-						add("response-header-type value="+safeTok(t), "%s: response %s header %s has type %q (must be string|number|integer|boolean|array)", where, code, hn, t)
+						add("response-header-type", "%s: response %s header %s has type %q (must be string|number|integer|boolean|array)", where, code, hn, t)
 					}
 					if t == "array" {
 						if _, ok := h["items"].(map[string]any); !ok {
@@ -635,14 +643,14 @@ func checkSwagger2(doc map[string]any) []oaIssue {
 				if in != "body" && in != "" {
 					t, _ := pm["type"].(string)
 					if !v2ParamTypes[t] {
-						add("parameter-type in="+safeTok(in)+" value="+safeTok(t), "%s: parameter %q (in %s) has type %q (must be string|number|integer|boolean|array|file)", where, name, in, t)
+						add("parameter-type in="+safeTok(in), "%s: parameter %q (in %s) has type %q (must be string|number|integer|boolean|array|file)", where, name, in, t)
 					}
 					if t == "array" {
 						it, ok := pm["items"].(map[string]any)
 						if !ok {
 							add("parameter-array-items", "%s: array parameter %q lacks items", where, name)
 						} else if t2, _ := it["type"].(string); !v2ItemTypes[t2] {
-							add("parameter-items-type value="+safeTok(t2), "%s: items of parameter %q have type %q", where, name, t2)
+							add("parameter-items-type", "%s: items of parameter %q have type %q", where, name, t2)
 						}
 					}
 					if t == "file" && in != "formData" {
